@@ -49,3 +49,34 @@ Proof.
     pose proof (len_nonneg s) as Hs. unfold len in *.
     rewrite app_length, firstn_length. cbn [length app marker]. rewrite skipn_length. lia.
 Qed.
+
+(* --- limits with no room for the marker (TruncateLen below 5, negative ones included) ---
+   The property's "exactly TruncateLen bytes long" cannot be met with the marker there; the reading used by the
+   specification below is the remaining part of that sentence: the text shown is never longer than the limit --
+   it is the plain prefix of max(limit, 0) bytes. *)
+Definition shown_spec_full (s : bytes) (l : Z) (r : bytes) : Prop :=
+  shown_spec s l r /\
+  (eff_len l < len s -> eff_len l < 5 -> is_prefix r s /\ len r = Z.max (eff_len l) 0).
+
+Definition shown_total (s : bytes) (l : Z) : bytes :=
+  match shown_oracle s l with
+  | Some r => r
+  | None => firstn (Z.to_nat (Z.max (eff_len l) 0)) s
+  end.
+
+Lemma shown_total_sound s l : shown_spec_full s l (shown_total s l).
+Proof.
+  unfold shown_total, shown_spec_full.
+  destruct (shown_oracle s l) as [r|] eqn:E.
+  - split; [now apply shown_oracle_sound|].
+    intros Hlong Hsmall. unfold shown_oracle in E.
+    destruct (len s <=? eff_len l) eqn:E1; [lia|].
+    destruct (5 <=? eff_len l) eqn:E2; [lia|discriminate].
+  - unfold shown_oracle in E.
+    destruct (len s <=? eff_len l) eqn:E1; [discriminate|].
+    destruct (5 <=? eff_len l) eqn:E2; [discriminate|].
+    split.
+    + split; intros; lia.
+    + intros Hlong Hsmall. split; [apply firstn_is_prefix|].
+      pose proof (len_nonneg s) as Hs. apply len_firstn. lia.
+Qed.
